@@ -502,8 +502,61 @@ def runAe (st : Report × Cells) (sec : Nat) (l : Line) : Report × Cells := Id.
     return (r, cellPut cs n v)
   | _, _ => return (r.mismatch sec l.idx "bad-op" (opS ++ " => " ++ joinSp l.obs), cs)
 
+/-! ### the building blocks on their own: `unit gw|oc|once|opts|drain …` -/
+
+def runUnit (r : Report) (sec : Nat) (l : Line) : Report := Id.run do
+  let mut r := { r with ops := r.ops + 1 }
+  let opS := joinSp l.op
+  let obs := joinSp l.obs
+  match l.op with
+  | "unit" :: "gw" :: kvs =>
+    let some cap := (kv? kvs "cap").bind (·.toNat?) | return r.mismatch sec l.idx "bad-op" opS
+    let some v := (kv? kvs "v").bind (·.toNat?) | return r.mismatch sec l.idx "bad-op" opS
+    let some cx := kv? kvs "ctx" | return r.mismatch sec l.idx "bad-op" opS
+    let some dn := kv? kvs "done" | return r.mismatch sec l.idx "bad-op" opS
+    if ¬ ["none", "live", "over"].contains cx ∨ ¬ ["open", "closed"].contains dn then return r.mismatch sec l.idx "bad-op" opS
+    let drops := guardDrops (cx = "over") (dn = "closed")
+    r := r.addCover s!"unit-guardedWriter-{if drops then "drops" else "delivers"}-{if cap = 0 then "unbuffered" else "buffered"}"
+    let want := if drops then "dropped" else s!"delivered:{v}"
+    if obs ≠ want then
+      r := r.violation sec l.idx s!"guardedWriter.Write: {obs}, but a value must be {want} (dropped iff the context is over or done is closed, on every channel) op=[{opS}]"
+    return r
+  | "unit" :: "oc" :: kvs =>
+    let vs := (kv? kvs "vals").getD ""
+    let some vals := (if vs = "" then some [] else (vs.splitOn ",").mapM (·.toNat?)) | return r.mismatch sec l.idx "bad-op" opS
+    let first := match onceChanAfter vals with | some a => s!"v{a}" | none => "none"
+    r := r.addCover s!"unit-onceChan-writes-{min vals.length 2}"
+    let want := s!"first={first} second=none buffered={min vals.length 1}"
+    if obs ≠ want then
+      r := r.violation sec l.idx s!"onceChan: {obs}, expected {want} (the first captured panic is kept and re-raised exactly once) op=[{opS}]"
+    return r
+  | "unit" :: "once" :: kvs =>
+    let some n := (kv? kvs "calls").bind (·.toNat?) | return r.mismatch sec l.idx "bad-op" opS
+    let some m := (kv? kvs "insts").bind (·.toNat?) | return r.mismatch sec l.idx "bad-op" opS
+    r := r.addCover s!"unit-once-calls-{min n 3}"
+    let want := "ran=" ++ ",".intercalate ((List.replicate m (onceRuns n)).map toString)
+    if obs ≠ want then
+      r := r.violation sec l.idx s!"once: {obs}, expected {want} (the function runs for the first call only, per instance: first cancel wins) op=[{opS}]"
+    return r
+  | "unit" :: "opts" :: kvs =>
+    let some ws := (kv? kvs "w").bind parseWorkers | return r.mismatch sec l.idx "bad-op" opS
+    let some cx := kv? kvs "ctx" | return r.mismatch sec l.idx "bad-op" opS
+    r := r.addCover s!"unit-buildOptions-{if ws.isEmpty then "default" else if ws.length = 1 then "one" else "list"}-ctx-{if cx = "none" then "absent" else "present"}"
+    let want := s!"workers={workersOf ws} ctx={if cx = "none" then "bg" else "given"}"
+    if obs ≠ want then
+      r := r.violation sec l.idx s!"buildOptions: {obs}, expected {want} (defaults 16 / Background, every option applied in order, the last WithWorkers wins, < 1 clamped to 1, the context forwarded from any position) op=[{opS}]"
+    return r
+  | "unit" :: "drain" :: _ =>
+    r := r.addCover "unit-drain"
+    if obs ≠ "returned left=0" then
+      r := r.violation sec l.idx s!"drain: {obs}, expected to return with the channel empty op=[{opS}]"
+    return r
+  | _ => return r.mismatch sec l.idx "bad-op" opS
+
 def runSection (r : Report) (s : Section) : Report :=
-  if s.lines.all (fun l => l.op.head? = some "ae") ∧ ¬ s.lines.isEmpty then
+  if s.lines.all (fun l => l.op.head? = some "unit") ∧ ¬ s.lines.isEmpty then
+    s.lines.foldl (fun r l => runUnit r s.idx l) r
+  else if s.lines.all (fun l => l.op.head? = some "ae") ∧ ¬ s.lines.isEmpty then
     (s.lines.foldl (fun st l => runAe st s.idx l) (r, [])).1
   else s.lines.foldl (fun r l => runLine r s.idx l) r
 
